@@ -935,3 +935,49 @@ verus! {
 pub fn hash_set_order<T>(v: Vec<T>) -> (r: Vec<T>) ensures r@.no_duplicates(), r@.to_set() == v@.to_set() { unimplemented!() }
 }
 '''
+
+
+def unmap_or(f):
+    """R6: `RECV.map_or(DFLT, |x| BODY)` -> `(match RECV { Some(x) => BODY, None => DFLT })` (RECV = the method-call chain ending before .map_or)"""
+    n = 0
+    while True:
+        m = re.search(r'\.\s*map_or(\()', f.body)
+        if not m:
+            break
+        close = match_brace(f.body, m.start(1))
+        inner = f.body[m.start(1) + 1:close]
+        mi = re.match(r'\s*(.*?),\s*\|\s*(\w+)\s*\|\s*(.*)$', inner, flags=re.S)
+        if not mi:
+            break
+        # receiver: walk back over a postfix chain ident(.ident|(..)|[..])*
+        i = m.start() - 1
+        while i >= 0:
+            ch = f.body[i]
+            if ch in ')]':
+                depth = 0
+                while i >= 0:
+                    if f.body[i] in ')]':
+                        depth += 1
+                    elif f.body[i] in '([':
+                        depth -= 1
+                        if depth == 0:
+                            break
+                    i -= 1
+                i -= 1
+                continue
+            if ch.isalnum() or ch in '_.*' or ch.isspace():
+                # stop at whitespace that follows a non-chain token
+                if ch.isspace() and not re.match(r'\s*\.', f.body[i:]):
+                    break
+                i -= 1
+                continue
+            break
+        recv = f.body[i + 1:m.start()].strip()
+        if not recv:
+            break
+        st = f.body.index(recv, i + 1)
+        f.body = f.body[:st] + f'(match {recv} {{ Some({mi.group(2)}) => {mi.group(3).strip().rstrip(",").strip()}, None => {mi.group(1).strip()} }})' + f.body[close + 1:]
+        n += 1
+    if n:
+        f.rewrites.append(('R6', f'{n}x `opt.map_or(d, |x| BODY)` -> match (BODY verbatim)', ''))
+    return f
